@@ -609,6 +609,27 @@ theorem cross_libdir_default_is_lib :
       = some (.str "lib".toList) := by
   decide +kernel
 
+/-! ## options registered after the top-level call (backend, compiler, base options) -/
+
+def kLate : Key := ⟨"backend_max_links".toList, none, .host⟩
+def lateVal (i : Nat) : Val := .str [Char.ofNat (48 + i)]
+
+/-- `-Dbackend_max_links`, machine file, `default_options` are parked as pending options by the top-level call in
+their order of precedence; `add_system_option` (what `init_backend_options` does afterwards) applies the winner -/
+def lateScenario (b : Fin 8) : Option Val :=
+  let src (bit : Nat) (i : Nat) : Dict := if b.val.testBit bit then [(kLate, lateVal i)] else []
+  let s := run (coreDataInit (Store.new false)).2
+    [.initTop (src 0 1) (src 2 3) (src 1 2), .addSystem kLate { kind := .integer (some 0) none, default := .int 0 }]
+  (getValueFor s kLate).toOption
+
+/-- for every subset of the three sources the late-registered option ends with the value of the command line, else
+the machine file, else `default_options`, else its default (after the repair of `Environment.init_backend_options`
+this is also what the build directory reports; the second pass it made is not part of the store) -/
+theorem late_registered_option_precedence : ∀ b : Fin 8,
+    lateScenario b = some (if b.val.testBit 2 then .int 3 else if b.val.testBit 1 then .int 2
+                           else if b.val.testBit 0 then .int 1 else .int 0) := by
+  decide +kernel
+
 /-! ## prefix-dependent directory defaults -/
 
 def kDir (n : String) : Key := ⟨n.toList, none, .host⟩
